@@ -19,7 +19,8 @@ CONSTANTS Roots,      \* absolute locations of a copy of the sources
           Cwds,       \* "src": the directory of the file, "parent": one above, "far": unrelated
           Spells,     \* "rel" / "dot" (./ and ../ detours) / "abs": how the file argument is written
           Outs,       \* "default" (no -out), "rel", "abs", "nested", "slash" (trailing slash)
-          Pres,       \* "fresh": empty output directory, "again": generated there once before
+          Pres,       \* "fresh": empty output directory, "again": generated there once before, "stale": the directory holds the
+                      \* output of a sibling generation (another flavour / option set of the same language)
           Orders,     \* "asc" / "desc": order of the comma separated generator options
           Envs,       \* "plain" / "other": HOME, TZ, LANG, GOMAXPROCS, umask
           MaxRep      \* repetitions of one and the same invocation
